@@ -94,7 +94,7 @@ def run(repo, tag, harnesses, jobs=4, harness_timeout=900, total_timeout=None, e
         hid = h['id']
         ob = {'name': 'kani:' + hid.replace('::verif_kani::', '::'), 'backend': 'kani-cbmc(cadical)',
               'kind': h.get('kind', 'complete'), 'bound': h.get('bound', ''), 'status': 'undecided',
-              'seconds': 0.0, 'detail': '', 'failed_checks': []}
+              'seconds': 0.0, 'detail': '', 'failed_checks': [], 'harness_id': hid, 'playback': h.get('playback', True)}
         r = results.get(hid)
         if r is None:
             ob['detail'] = 'harness not found / not run (anchor lost?)'
